@@ -131,6 +131,21 @@ class Bench:
             raise HarnessError("advertisement not captured by the receiver radio")
         return self.rr.rx_fifo[-1][1]
 
+    def hop(self):
+        """the receiver moves on to the next advertising channel (as a scanning application does); the ghost follows"""
+        w = self.w.activate()
+        self.rx.listen = False
+        self.rx.hop_channel()
+        self.rx.listen = True
+        self.ch = self.rr.r[0x05]
+        self.ghost = sim.ghost_sender(w, "ghost-ch%d" % self.ch, channel=self.ch, crc=0, aw=4, en_aa=0, dynpd=0, feature=0)
+        w.advance(300 * US)
+        del w.airlog[:]
+        if ble.ble_channel(self.ch) is None:
+            raise HarnessError("receiver left the advertising channels")
+        self.hold = True  # (bench_for keeps this bench for the next payload, then it is discarded)
+        self.dirty = True
+
     def poll(self):
         """available() then read() until empty -> (exception name or None, available() result,
         elements)"""
@@ -159,6 +174,9 @@ class Bench:
 
 def bench_for(cache, seed, hops, need_lib_tx=True):
     b = cache.get(hops)
+    if b is not None and getattr(b, "hold", False):
+        b.hold = False
+        return b
     if b is None or b.dirty or b.rr.rx_fifo or (need_lib_tx and b.tx is None):
         b = cache[hops] = Bench(seed, hops, need_lib_tx)
     return b
@@ -463,6 +481,8 @@ def run_cases(part, item_key, cases, seed, rep):
             if case.get("after") is not None:
                 # history: the SAME receiver has just validated this (undamaged) packet
                 fails, _ = exec_raw(cache, seed, case["hops"], case["after"], case.get("feats"))
+                if case.get("hop_between"):
+                    cache[case["hops"]].hop()  # ... and has moved on to the next channel since
             f2, outcome = exec_raw(cache, seed, case["hops"], case["payload"], case.get("feats"))
             fails = fails + f2
         rep.case()
@@ -647,6 +667,10 @@ def dom_corrupt(tier, seed):
             if tier == "thorough" or hops == 0:
                 seq += [(a, b) for a in range(r0) for b in range(r0, r0 + 24)]
             cases += [dict(kind="raw", hops=hops, payload=flip(base, p), after=base, feats={"corrupt": "%dbit-after-valid" % len(p)}) for p in seq]
+        # the very same 32 bytes again after the receiver hopped to the next channel: whitened for the wrong channel now
+        for base in (short, full):
+            cases.append(dict(kind="raw", hops=hops, payload=base, after=base, hop_between=True, feats={"corrupt": "same-bytes-after-hop"}))
+            cases.append(dict(kind="raw", hops=hops, payload=flip(base, (9,)), after=base, hop_between=True, feats={"corrupt": "1bit-after-hop"}))
         items += split("corrupt", cases, 10 if tier == "quick" else 24, seed)
     return [(p, "%s-%d" % (k, i), c, s) for i, (p, k, c, s) in enumerate(items)]
 
@@ -1056,6 +1080,8 @@ def replay(data):
             fails = []
             if case.get("after") is not None:
                 fails, _ = exec_raw(cache, seed, case["hops"], case["after"], case.get("feats"))
+                if case.get("hop_between"):
+                    cache[case["hops"]].hop()
             f2, outcome = exec_raw(cache, seed, case["hops"], case["payload"], case.get("feats"))
             fails = fails + f2
     print("outcome:", outcome)
